@@ -114,7 +114,7 @@ func c11Expected(pkgDir, absDir string, r c11Result) string {
 		}
 	}
 	if standalone {
-		if cb.Shape == "config-reused" && (cb.API == "sjson" || cb.Ext != "") {
+		if (cb.Shape == "config-reused" || cb.Shape == "after-rejected-sjson") && (cb.API == "sjson" || cb.Ext != "") {
 			// the Config's earlier MatchStandaloneJSON call of the same test took _1 of the same file pattern
 			// (with an explicit Ext both standalone entry points share <name>_%d.snap<Ext>)
 			base += "_2"
@@ -131,7 +131,7 @@ func c11Expected(pkgDir, absDir string, r c11Result) string {
 
 func runC11(tier, scratch, replay string, nworkers int) *merged {
 	m := newMerged()
-	m.rule = "Dir {unset, d, d/e, d_%d, absolute} x Filename {unset, custom, api/users, case_%d} x Ext x 5 APIs x 13 call shapes (helper in a test file with a dotted name, direct, closure, helper in the same / another test file, in a non-test file, in another package, 40/70 frames deep, subtest, goroutine, through a Config used before) looped inside the real test binary (executed twice: create, then update with a changed value), " +
+	m.rule = "Dir {unset, d, d/e, d_%d, absolute} x Filename {unset, custom, api/users, case_%d} x Ext x 5 APIs x 14 call shapes (after a rejected standalone call of the same test, helper in a test file with a dotted name, direct, closure, helper in the same / another test file, in a non-test file, in another package, 40/70 frames deep, subtest, goroutine, through a Config used before) looped inside the real test binary (executed twice: create, then update with a changed value), " +
 		"x package depth {root, sub, sub/deep} x build {plain, -trimpath flag, -trimpath via GOFLAGS} x cwd changed (plain) x GOROOT set/unset; non-trivial = distinct (run, combination) pairs"
 	m.assumptions = append(m.assumptions, "with -trimpath the binary is run from its package directory, as go test does (the documented limitation -trimpath + foreign cwd is excluded)")
 	root := filepath.Join(scratch, "c11", "e3mod")
